@@ -31,7 +31,7 @@ func (p *c05) NumCases(tier string) int {
 func c05Cond(r *rand.Rand, values val.Item) *refmodel.Cond {
 	switch r.Intn(4) {
 	case 0:
-		attr := mon.Pick(r, []string{"a", "g", "s", "v", "h"})
+		attr := mon.Pick(r, []string{"a", "g", "s", "v", "h", "r"})
 		return &refmodel.Cond{Op: mon.Pick(r, []string{"exists", "notexists"}), Args: []refmodel.Operand{{Kind: "path", Path: refmodel.P(attr)}}}
 	case 1:
 		values[":a"] = val.Str(mon.Pick(r, []string{"red", "blue", "green"}))
@@ -75,6 +75,17 @@ func (p *c05) RunCase(ctx *runner.Ctx) runner.CaseResult {
 		hv = func(h string) val.V { return val.Num(h) }
 		x.r.Counters["numeric_key_cases"]++
 	}
+	// every seventh case runs on a HASH-ONLY table of the same name: "r" is an ordinary attribute there (present in
+	// half of the items), so the same guard texts - attribute_exists(r), attribute_not_exists(r) - that are
+	// decided by the key schema on the other tables depend on the stored item here
+	hashOnly := !numeric && ctx.Case%7 == 5
+	rangePool := ixRangePool
+	if hashOnly {
+		spec = adapt.TableSpec{Name: "tbl05", Hash: "h", Billing: "PAY_PER_REQUEST", Indexes: []adapt.IndexSpec{{Name: "gsi1", Hash: "g"}, {Name: "gsi2", Hash: "g", Range: "s"}}}
+		rangePool = []string{""}
+		hashPool = []string{"p", "p.q", "pq", "q", "qq", "p.", ".q", "a"}
+		x.r.Counters["hash_only_table_cases"]++
+	}
 	cl, m, ds := freshClient(adapter, spec)
 	if ds != nil {
 		x.viol("setup", "create", ds[0].Detail, spec)
@@ -83,6 +94,12 @@ func (p *c05) RunCase(ctx *runner.Ctx) runner.CaseResult {
 	mk := func(h, rg string, i int) val.Item {
 		it := ixItem(h, rg, maybe(r, ixGPool, 30), maybe(r, ixSPool, 30), r.Intn(6))
 		it["h"] = hv(h)
+		if hashOnly {
+			delete(it, "r")
+			if r.Intn(2) == 0 {
+				it["r"] = val.Str(mon.Pick(r, []string{"1", "10"}))
+			}
+		}
 		if r.Intn(4) != 0 {
 			it["a"] = val.Str(mon.Pick(r, []string{"red", "blue", "green"}))
 		}
@@ -97,7 +114,7 @@ func (p *c05) RunCase(ctx *runner.Ctx) runner.CaseResult {
 	used := map[string]bool{}
 	bystanders := []val.Item{}
 	for i := 0; i < nb; i++ {
-		h, rg := mon.Pick(r, hashPool), mon.Pick(r, ixRangePool)
+		h, rg := mon.Pick(r, hashPool), mon.Pick(r, rangePool)
 		if used[h+"|"+rg] {
 			continue
 		}
@@ -108,7 +125,7 @@ func (p *c05) RunCase(ctx *runner.Ctx) runner.CaseResult {
 	}
 	var th, tr string
 	for {
-		th, tr = mon.Pick(r, hashPool), mon.Pick(r, ixRangePool)
+		th, tr = mon.Pick(r, hashPool), mon.Pick(r, rangePool)
 		if !used[th+"|"+tr] {
 			break
 		}
@@ -126,7 +143,7 @@ func (p *c05) RunCase(ctx *runner.Ctx) runner.CaseResult {
 				}
 			}
 		}
-	} else if r.Intn(3) == 0 {
+	} else if !hashOnly && r.Intn(3) == 0 {
 		// confusable mode: the target and one bystander are a pair of keys that collide under a plausible but
 		// wrong composite-key encoding (mon.ConfusablePairs)
 		cp := mon.Pick(r, mon.ConfusablePairs())
@@ -155,6 +172,9 @@ func (p *c05) RunCase(ctx *runner.Ctx) runner.CaseResult {
 		return x.r
 	}
 	tkey := val.Item{"h": hv(th), "r": val.Str(tr)}
+	if hashOnly {
+		tkey = val.Item{"h": hv(th)}
+	}
 	keys.Add(spec.Name, tkey)
 	// choose a discriminating condition
 	tItem := target
